@@ -22,6 +22,10 @@ print(r.group(1) if r else m.get('property','${n%%-*}'))")
   echo "$n $chk $rc $key"
 }
 export -f one
-ls -d seeded/C??-m* | sort -V | xargs -P "$lanes" -I{} bash -c 'one {}' | tee /tmp/seedregress/all.txt
+# deterministic shuffle (a run that is cut short is a random sample); names already in all.txt are skipped
+touch /tmp/seedregress/all.txt
+ls -d seeded/C??-m* | sort -V | shuf --random-source=<(yes 42) | while read d; do
+  grep -q "^$(basename "$d") " /tmp/seedregress/all.txt || echo "$d"; done |
+  xargs -P "$lanes" -I{} bash -c 'one {}' | tee -a /tmp/seedregress/all.txt
 sort -V /tmp/seedregress/all.txt > seeded/REGRESSION.txt
 echo "total $(wc -l < seeded/REGRESSION.txt), not caught $(grep -c 'NOT-CAUGHT' seeded/REGRESSION.txt), do not apply $(grep -c 'does-not-apply' seeded/REGRESSION.txt)"
